@@ -695,6 +695,18 @@ pub fn scenarios(prop: &str, thorough: bool) -> Vec<Scenario> {
         if small && !thorough && !s.name.contains("C20s") {
             s.fine = false;
         }
+        if s.name.starts_with("H/") {
+            // held writers: the pauses are scripted, every tick and release order is a free
+            // choice (tens of thousands of executions per script already at bound 0)
+            s.bound = 0;
+            continue;
+        }
+        if thorough && s.name.starts_with("C07a/") {
+            // 137 000 sequential histories of depth 4: default schedule plus the free choices (every
+            // tick timing out or completing); preemptions are spent on the smaller families
+            s.bound = 0;
+            continue;
+        }
         if s.name.starts_with("Big/") {
             // thousands of items: default schedule plus the free choices (tick timing out or not)
             s.bound = 0;
@@ -902,7 +914,14 @@ pub fn child(prop: &str, tier: &str, shard: usize, nshards: usize) -> ! {
     // below the root execution. Many light scenarios: the scenarios themselves are dealt out.
     let many = scns.len() >= 4 * nshards;
     let mut light_no = 0usize;
+    let only = std::env::var("E2_ONLY").ok();
     for scn in scns.iter() {
+        // development aid: restrict a run to the scenarios whose name starts with E2_ONLY
+        if let Some(o) = &only {
+            if !scn.name.starts_with(o.as_str()) {
+                continue;
+            }
+        }
         // heavy scenarios (explored with preemptions, or with held writers and their many free
         // choices) are split by subtree over all children, light ones are dealt out whole
         let heavy = scn.bound >= 1 || scn.name.starts_with("H/") || !many;
